@@ -28,6 +28,6 @@ CHECKS['C16'] = {
     ],
     'units': [
         unit('choose', 'dispatchcloud_c16', '^TestVerifC16Choose$', {'shards': 8, 'checks': 6000}, {'shards': 16, 'checks': 450000, 'timeout': 3000}),
-        unit('order', 'scheduler_c16', '^TestVerifC16Order', {'shards': 8, 'checks': 6000}, {'shards': 16, 'checks': 300000, 'timeout': 3000}),
+        unit('order', 'scheduler_c16', '^TestVerifC16Order', {'shards': 8, 'checks': 6000}, {'shards': 16, 'checks': 160000, 'timeout': 3000}),
     ],
 }
